@@ -45,3 +45,5 @@ Theorem defaults_same :
   Consts.default_compactionMinFragmentation_num = 1 /\ Consts.default_compactionMinFragmentation_den = 2.
 Proof. repeat split; reflexivity. Qed.
 Theorem mmap_initial : Consts.initial_mmap_size = 1073741824. Proof. reflexivity. Qed.
+(* parseSegmentName: the id is parsed as a 16-bit, the sequence number as a 64-bit unsigned integer *)
+Theorem segment_name_parse_widths : Consts.parse_segment_name_bits = [16; 64]. Proof. reflexivity. Qed.
